@@ -1,1273 +1,33 @@
 package c01
 
 import (
-	"fmt"
-	"math"
-	"math/cmplx"
 	"testing"
 
-	"gonum.org/v1/gonum/blas"
 	"pgregory.net/rapid"
+	"verifharness/blaskit"
 	"verifharness/vk"
 )
 
-// bcase is one generated BLAS call.
-type bcase struct {
-	Prec string // S D C Z
-	Fam  string
-	TA   string
-	TB   string
-	Uplo string
-	Diag string
-	Side string
-	Herm bool // complex only: Hermitian variant (hemm/herk/her2k) or conjugated variant (gerc, dotc)
-	M    int
-	N    int
-	K    int
-	KL   int
-	KU   int
-	IncX int
-	IncY int
-	PadA int
-	PadB int
-	PadC int
-	Pre  int
-	Post int
-	Tail int
-	Trim bool
-	AlRe vk.F
-	AlIm vk.F
-	BeRe vk.F
-	BeIm vk.F
-	Seed uint64
-}
-
-func trFlag(s string) blas.Transpose {
-	switch s {
-	case "T":
-		return blas.Trans
-	case "C":
-		return blas.ConjTrans
-	}
-	return blas.NoTrans
-}
-func ulFlag(s string) blas.Uplo {
-	if s == "L" {
-		return blas.Lower
-	}
-	return blas.Upper
-}
-func dgFlag(s string) blas.Diag {
-	if s == "U" {
-		return blas.Unit
-	}
-	return blas.NonUnit
-}
-func sdFlag(s string) blas.Side {
-	if s == "R" {
-		return blas.Right
-	}
-	return blas.Left
-}
-
-func b0(s string) byte {
-	if s == "" {
-		return 'N'
-	}
-	return s[0]
-}
-
-// env is the per-case state shared by the family runners.
-type env[T num] struct {
-	c    bcase
-	im   *impl[T]
-	g    *vk.SplitMix
-	lay  layout
-	bufs []*buf[T]
-	cx   bool
-	al   complex128
-	be   complex128
-}
-
-func (e *env[T]) val() complex128 {
-	if e.cx {
-		return roundTo[T](complex(e.g.Finite(), e.g.Finite()))
-	}
-	return roundTo[T](complex(e.g.Finite(), 0))
-}
-
-func (e *env[T]) vec(n int) []complex128 {
-	v := make([]complex128, n)
-	for i := range v {
-		v[i] = e.val()
-	}
-	return v
-}
-
-func (e *env[T]) mat(r, c int) cmat {
-	m := newCmat(r, c)
-	for i := range m.d {
-		m.d[i] = e.val()
-	}
-	return m
-}
-
-// tri returns an n×n triangular logical matrix (zero outside the uplo triangle,
-// ones on the diagonal when unit). With dominant set, the diagonal dominates the
-// rows and columns so that triangular solves stay well conditioned.
-func (e *env[T]) tri(n int, uplo byte, unit, dominant bool) cmat {
-	m := newCmat(n, n)
-	for i := 0; i < n; i++ {
-		for j := 0; j < n; j++ {
-			if !inTri(uplo, i, j) {
-				continue
-			}
-			v := e.val()
-			if i == j {
-				if unit {
-					v = 1
-				} else if dominant {
-					s := 1.0
-					if real(v) < 0 {
-						s = -1
-					}
-					v = roundTo[T](complex(s*(1+math.Abs(real(v))/4), 0) + complex(0, imag(v)/8))
-				}
-			} else if dominant {
-				v = roundTo[T](v / complex(float64(4*n), 0))
-			}
-			m.set(i, j, v)
-		}
-	}
-	return m
-}
-
-// band zeroes everything outside the band.
-func bandLimit(m cmat, kl, ku int) {
-	for i := 0; i < m.r; i++ {
-		for j := 0; j < m.c; j++ {
-			if j < i-kl || j > i+ku {
-				m.set(i, j, 0)
-			}
-		}
-	}
-}
-
-// herm returns a Hermitian (complex types) or symmetric (real types) n×n matrix.
-func (e *env[T]) herm(n int, hermitian bool) cmat {
-	m := newCmat(n, n)
-	for i := 0; i < n; i++ {
-		for j := i; j < n; j++ {
-			v := e.val()
-			if i == j && hermitian {
-				v = complex(real(v), 0)
-			}
-			m.set(i, j, v)
-			if hermitian {
-				m.set(j, i, cmplx.Conj(v))
-			} else {
-				m.set(j, i, v)
-			}
-		}
-	}
-	return m
-}
-
-func (e *env[T]) add(b *buf[T]) *buf[T] {
-	e.bufs = append(e.bufs, b)
-	return b
-}
-
-// call snapshots all buffers, runs f and converts a panic into a failure.
-func (e *env[T]) call(f func()) *vk.Failure {
-	for _, b := range e.bufs {
-		b.snapshot()
-	}
-	r := vk.Call(f)
-	if r.Outcome != vk.Returned {
-		return vk.Failf("valid-call-"+r.Outcome.String(), "%s%s on valid arguments: %s", e.c.Prec, e.c.Fam, r.Text)
-	}
-	return nil
-}
-
-func (e *env[T]) verify(quick bool) *vk.Failure {
-	for _, b := range e.bufs {
-		if f := b.verify(quick); f != nil {
-			return f
-		}
-	}
-	return nil
-}
-
-// yInit prepares an output vector/matrix value: a NaN when beta == 0 (must be overwritten, never read).
-func (e *env[T]) outInit(v complex128) complex128 {
-	if e.be == 0 {
-		return complex(math.NaN(), math.NaN())
-	}
-	return v
-}
-
-func cabs1(z complex128) float64 { return math.Abs(real(z)) + math.Abs(imag(z)) }
-
-func runBLAS[T num](im *impl[T], c bcase) *vk.Failure {
-	e := &env[T]{c: c, im: im, g: vk.NewSplitMix(c.Seed), cx: isComplex[T]()}
-	e.lay = layout{pre: c.Pre, post: c.Post, tail: c.Tail, trim: c.Trim}
-	e.al = complex(float64(c.AlRe), float64(c.AlIm))
-	e.be = complex(float64(c.BeRe), float64(c.BeIm))
-	if !e.cx {
-		e.al, e.be = complex(real(e.al), 0), complex(real(e.be), 0)
-	}
-	e.al, e.be = roundTo[T](e.al), roundTo[T](e.be)
-	switch c.Fam {
-	case "gemv", "gbmv":
-		return e.gemv()
-	case "trmv", "tbmv", "tpmv", "trsv", "tbsv", "tpsv":
-		return e.trxv()
-	case "hemv", "hbmv", "hpmv":
-		return e.hemv()
-	case "ger":
-		return e.ger()
-	case "her", "hpr", "her2", "hpr2":
-		return e.her()
-	case "gemm":
-		return e.gemm()
-	case "symm":
-		return e.symm()
-	case "syrk", "syr2k":
-		return e.syrk()
-	case "trmm", "trsm":
-		return e.trxm()
-	case "dot", "dsdot", "sdsdot", "nrm2", "asum", "iamax", "swap", "copy", "axpy", "scal", "rscal", "rot", "rotm":
-		return e.level1()
-	}
-	panic("unknown family " + c.Fam)
-}
-
-// ---- Level 2 ---------------------------------------------------------------
-
-func (e *env[T]) gemv() *vk.Failure {
-	c := e.c
-	m, n := c.M, c.N
-	ta := b0(c.TA)
-	A := e.mat(m, n)
-	var ab *buf[T]
-	var lda int
-	if c.Fam == "gbmv" {
-		bandLimit(A, c.KL, c.KU)
-		lda = c.KL + c.KU + 1 + c.PadA
-		ab = e.add(makeGB[T]("A", A, c.KL, c.KU, lda, e.lay))
-	} else {
-		lda = max(1, n) + c.PadA
-		ab = e.add(makeGe[T]("A", A, lda, e.lay))
-	}
-	lenX, lenY := n, m
-	if ta != 'N' {
-		lenX, lenY = m, n
-	}
-	x := e.vec(lenX)
-	y := e.vec(lenY)
-	xb := e.add(makeVec[T]("x", x, c.IncX, e.lay))
-	yin := make([]complex128, lenY)
-	for i := range y {
-		yin[i] = e.outInit(y[i])
-	}
-	yb := e.add(makeVec[T]("y", yin, c.IncY, e.lay))
-	quick := m == 0 || n == 0 || (e.al == 0 && e.be == 1)
-	for i := 0; i < lenY; i++ {
-		var acc cacc
-		for j := 0; j < lenX; j++ {
-			a := A.opAt(ta, i, j)
-			if a != 0 {
-				acc.addProd(a, x[j])
-			}
-		}
-		want := e.al * acc.val()
-		S := cmplx.Abs(e.al) * acc.abs
-		if e.be != 0 {
-			want += e.be * y[i]
-			S += cmplx.Abs(e.be) * cmplx.Abs(y[i])
-		}
-		yb.expectAt(vecPos(i, lenY, c.IncY), want, bound[T](acc.k+2, S))
-	}
-	if m == 0 || n == 0 {
-		// standard BLAS quick return: nothing is touched
-		for i := range yb.expect {
-			yb.expect[i] = -1
-		}
-		for i := 0; i < lenY; i++ { // make the untouched check meaningful even for beta==0
-			_ = i
-		}
-	}
-	if f := e.call(func() {
-		if c.Fam == "gbmv" {
-			e.im.gbmv(trFlag(c.TA), m, n, c.KL, c.KU, e.al, ab.s, lda, xb.s, c.IncX, e.be, yb.s, c.IncY)
-		} else {
-			e.im.gemv(trFlag(c.TA), m, n, e.al, ab.s, lda, xb.s, c.IncX, e.be, yb.s, c.IncY)
-		}
-	}); f != nil {
-		return f
-	}
-	return e.verify(quick)
-}
-
-// triStore renders a triangular logical matrix in the storage of the family.
-func (e *env[T]) triStore(A cmat, kind byte, uplo byte, unit, herm bool) (*buf[T], int) {
-	n := A.r
-	switch kind {
-	case 'r': // full storage
-		lda := max(1, n) + e.c.PadA
-		return e.add(makeTri[T]("A", A, uplo, lda, unit, herm, e.lay)), lda
-	case 'b':
-		lda := e.c.K + 1 + e.c.PadA
-		return e.add(makeTB[T]("A", A, uplo, e.c.K, lda, unit, herm, e.lay)), lda
-	default:
-		return e.add(makePacked[T]("AP", A, uplo, unit, herm, e.lay)), 0
-	}
-}
-
-func (e *env[T]) trxv() *vk.Failure {
-	c := e.c
-	n := c.N
-	uplo, ta, unit := b0(c.Uplo), b0(c.TA), c.Diag == "U"
-	solve := c.Fam[2] == 's'
-	kind := c.Fam[1] // r, b, p
-	A := e.tri(n, uplo, unit, solve)
-	if kind == 'b' {
-		if uplo == 'U' {
-			bandLimit(A, 0, c.K)
-		} else {
-			bandLimit(A, c.K, 0)
-		}
-	}
-	ab, lda := e.triStore(A, kind, uplo, unit, false)
-	x := e.vec(n)
-	xb := e.add(makeVec[T]("x", x, c.IncX, e.lay))
-	if !solve {
-		for i := 0; i < n; i++ {
-			var acc cacc
-			for j := 0; j < n; j++ {
-				if a := A.opAt(ta, i, j); a != 0 {
-					acc.addProd(a, x[j])
-				}
-			}
-			xb.expectAt(vecPos(i, n, c.IncX), acc.val(), bound[T](acc.k+1, acc.abs))
-		}
-	} else {
-		for i := 0; i < n; i++ {
-			xb.expect[xb.off+vecPos(i, n, c.IncX)] = -2
-		}
-	}
-	if f := e.call(func() {
-		ul, tr, dg := ulFlag(c.Uplo), trFlag(c.TA), dgFlag(c.Diag)
-		switch c.Fam {
-		case "trmv":
-			e.im.trmv(ul, tr, dg, n, ab.s, lda, xb.s, c.IncX)
-		case "trsv":
-			e.im.trsv(ul, tr, dg, n, ab.s, lda, xb.s, c.IncX)
-		case "tbmv":
-			e.im.tbmv(ul, tr, dg, n, c.K, ab.s, lda, xb.s, c.IncX)
-		case "tbsv":
-			e.im.tbsv(ul, tr, dg, n, c.K, ab.s, lda, xb.s, c.IncX)
-		case "tpmv":
-			e.im.tpmv(ul, tr, dg, n, ab.s, xb.s, c.IncX)
-		case "tpsv":
-			e.im.tpsv(ul, tr, dg, n, ab.s, xb.s, c.IncX)
-		}
-	}); f != nil {
-		return f
-	}
-	if solve {
-		// componentwise backward error: |b - op(A) xhat| <= gamma (|op(A)||xhat| + |b|)
-		xh := make([]complex128, n)
-		for i := range xh {
-			xh[i] = xb.get(vecPos(i, n, c.IncX))
-			if hasNaN(xh[i]) || cmplx.IsInf(xh[i]) {
-				return vk.Failf("solve-nonfinite", "%s%s: x[%d]=%v", c.Prec, c.Fam, i, xh[i])
-			}
-		}
-		for i := 0; i < n; i++ {
-			var acc cacc
-			for j := 0; j < n; j++ {
-				if a := A.opAt(ta, i, j); a != 0 {
-					acc.addProd(a, xh[j])
-				}
-			}
-			res := cmplx.Abs(x[i] - acc.val())
-			tol := bound[T](n+2, acc.abs+cmplx.Abs(x[i]))
-			if res > tol {
-				return vk.Failf("solve-residual", "%s%s: row %d residual %g exceeds %g", c.Prec, c.Fam, i, res, tol)
-			}
-		}
-	}
-	return e.verify(false)
-}
-
-func (e *env[T]) hemv() *vk.Failure {
-	c := e.c
-	n := c.N
-	uplo := b0(c.Uplo)
-	A := e.herm(n, e.cx)
-	kind := byte('r')
-	switch c.Fam {
-	case "hbmv":
-		kind = 'b'
-		bandLimit(A, c.K, c.K)
-	case "hpmv":
-		kind = 'p'
-	}
-	ab, lda := e.triStore(A, kind, uplo, false, e.cx)
-	x, y := e.vec(n), e.vec(n)
-	xb := e.add(makeVec[T]("x", x, c.IncX, e.lay))
-	yin := make([]complex128, n)
-	for i := range y {
-		yin[i] = e.outInit(y[i])
-	}
-	yb := e.add(makeVec[T]("y", yin, c.IncY, e.lay))
-	for i := 0; i < n; i++ {
-		var acc cacc
-		for j := 0; j < n; j++ {
-			if a := A.at(i, j); a != 0 {
-				acc.addProd(a, x[j])
-			}
-		}
-		want := e.al * acc.val()
-		S := cmplx.Abs(e.al) * acc.abs
-		if e.be != 0 {
-			want += e.be * y[i]
-			S += cmplx.Abs(e.be) * cmplx.Abs(y[i])
-		}
-		yb.expectAt(vecPos(i, n, c.IncY), want, bound[T](acc.k+2, S))
-	}
-	quick := n == 0 || (e.al == 0 && e.be == 1)
-	if f := e.call(func() {
-		ul := ulFlag(c.Uplo)
-		switch c.Fam {
-		case "hemv":
-			e.im.hemv(ul, n, e.al, ab.s, lda, xb.s, c.IncX, e.be, yb.s, c.IncY)
-		case "hbmv":
-			e.im.hbmv(ul, n, c.K, e.al, ab.s, lda, xb.s, c.IncX, e.be, yb.s, c.IncY)
-		case "hpmv":
-			e.im.hpmv(ul, n, e.al, ab.s, xb.s, c.IncX, e.be, yb.s, c.IncY)
-		}
-	}); f != nil {
-		return f
-	}
-	return e.verify(quick)
-}
-
-func (e *env[T]) ger() *vk.Failure {
-	c := e.c
-	m, n := c.M, c.N
-	A := e.mat(m, n)
-	lda := max(1, n) + c.PadA
-	ab := e.add(makeGe[T]("A", A, lda, e.lay))
-	x, y := e.vec(m), e.vec(n)
-	xb := e.add(makeVec[T]("x", x, c.IncX, e.lay))
-	yb := e.add(makeVec[T]("y", y, c.IncY, e.lay))
-	for i := 0; i < m; i++ {
-		for j := 0; j < n; j++ {
-			yj := y[j]
-			if c.Herm {
-				yj = cmplx.Conj(yj)
-			}
-			t := e.al * x[i] * yj
-			ab.expectAt(i*lda+j, A.at(i, j)+t, bound[T](3, cmplx.Abs(A.at(i, j))+cmplx.Abs(t)))
-		}
-	}
-	quick := m == 0 || n == 0 || e.al == 0
-	if f := e.call(func() {
-		if c.Herm {
-			e.im.gerc(m, n, e.al, xb.s, c.IncX, yb.s, c.IncY, ab.s, lda)
-		} else {
-			e.im.geru(m, n, e.al, xb.s, c.IncX, yb.s, c.IncY, ab.s, lda)
-		}
-	}); f != nil {
-		return f
-	}
-	return e.verify(quick)
-}
-
-func (e *env[T]) her() *vk.Failure {
-	c := e.c
-	n := c.N
-	uplo := b0(c.Uplo)
-	A := e.herm(n, e.cx)
-	packed := c.Fam == "hpr" || c.Fam == "hpr2"
-	two := c.Fam == "her2" || c.Fam == "hpr2"
-	kind := byte('r')
-	if packed {
-		kind = 'p'
-	}
-	ab, lda := e.triStore(A, kind, uplo, false, e.cx)
-	al := e.al
-	if !two {
-		al = complex(real(al), 0) // her/hpr/syr/spr take a real alpha
-	}
-	x := e.vec(n)
-	xb := e.add(makeVec[T]("x", x, c.IncX, e.lay))
-	var y []complex128
-	var yb *buf[T]
-	if two {
-		y = e.vec(n)
-		yb = e.add(makeVec[T]("y", y, c.IncY, e.lay))
-	}
-	cj := func(z complex128) complex128 {
-		if e.cx {
-			return cmplx.Conj(z)
-		}
-		return z
-	}
-	ab.hermDiag = map[int]bool{}
-	for i := 0; i < n; i++ {
-		for j := 0; j < n; j++ {
-			if !inTri(uplo, i, j) {
-				continue
-			}
-			var t complex128
-			if two {
-				t = al*x[i]*cj(y[j]) + cj(al)*y[i]*cj(x[j])
-			} else {
-				t = al * x[i] * cj(x[j])
-			}
-			idx := i*lda + j
-			if packed {
-				idx = packedIdx(uplo, n, i, j)
-			}
-			S := cmplx.Abs(A.at(i, j)) + 2*cmplx.Abs(al)*(cmplx.Abs(x[i])+1)*(cmplx.Abs(x[j])+1)
-			if two {
-				S = cmplx.Abs(A.at(i, j)) + 2*cmplx.Abs(al)*(cmplx.Abs(x[i])*cmplx.Abs(y[j])+cmplx.Abs(y[i])*cmplx.Abs(x[j]))
-			} else {
-				S = cmplx.Abs(A.at(i, j)) + cmplx.Abs(al)*cmplx.Abs(x[i])*cmplx.Abs(x[j])
-			}
-			ab.expectAt(idx, A.at(i, j)+t, bound[T](4, S))
-			if e.cx && i == j {
-				ab.hermDiag[ab.off+idx] = true
-			}
-		}
-	}
-	quick := n == 0 || al == 0
-	if f := e.call(func() {
-		ul := ulFlag(c.Uplo)
-		switch c.Fam {
-		case "her":
-			e.im.her(ul, n, real(al), xb.s, c.IncX, ab.s, lda)
-		case "hpr":
-			e.im.hpr(ul, n, real(al), xb.s, c.IncX, ab.s)
-		case "her2":
-			e.im.her2(ul, n, al, xb.s, c.IncX, yb.s, c.IncY, ab.s, lda)
-		case "hpr2":
-			e.im.hpr2(ul, n, al, xb.s, c.IncX, yb.s, c.IncY, ab.s)
-		}
-	}); f != nil {
-		return f
-	}
-	return e.verify(quick)
-}
-
-// ---- Level 3 ---------------------------------------------------------------
-
-func (e *env[T]) gemm() *vk.Failure {
-	c := e.c
-	m, n, k := c.M, c.N, c.K
-	ta, tb := b0(c.TA), b0(c.TB)
-	var A, B cmat
-	if ta == 'N' {
-		A = e.mat(m, k)
-	} else {
-		A = e.mat(k, m)
-	}
-	if tb == 'N' {
-		B = e.mat(k, n)
-	} else {
-		B = e.mat(n, k)
-	}
-	C := e.mat(m, n)
-	lda, ldb, ldc := max(1, A.c)+c.PadA, max(1, B.c)+c.PadB, max(1, n)+c.PadC
-	ab := e.add(makeGe[T]("A", A, lda, e.lay))
-	bb := e.add(makeGe[T]("B", B, ldb, e.lay))
-	Cin := newCmat(m, n)
-	for i := range C.d {
-		Cin.d[i] = e.outInit(C.d[i])
-	}
-	cb := e.add(makeGe[T]("C", Cin, ldc, e.lay))
-	// op(B) columns gathered once
-	for i := 0; i < m; i++ {
-		for j := 0; j < n; j++ {
-			var acc cacc
-			for l := 0; l < k; l++ {
-				acc.addProd(A.opAt(ta, i, l), B.opAt(tb, l, j))
-			}
-			want := e.al * acc.val()
-			S := cmplx.Abs(e.al) * acc.abs
-			if e.be != 0 {
-				want += e.be * C.at(i, j)
-				S += cmplx.Abs(e.be) * cmplx.Abs(C.at(i, j))
-			}
-			cb.expectAt(i*ldc+j, want, bound[T](k+2, S))
-		}
-	}
-	quick := m == 0 || n == 0 || ((e.al == 0 || k == 0) && e.be == 1)
-	if f := e.call(func() {
-		e.im.gemm(trFlag(c.TA), trFlag(c.TB), m, n, k, e.al, ab.s, lda, bb.s, ldb, e.be, cb.s, ldc)
-	}); f != nil {
-		return f
-	}
-	return e.verify(quick)
-}
-
-func (e *env[T]) symm() *vk.Failure {
-	c := e.c
-	m, n := c.M, c.N
-	uplo := b0(c.Uplo)
-	left := c.Side != "R"
-	ka := n
-	if left {
-		ka = m
-	}
-	hermitian := c.Herm && e.cx
-	A := e.herm(ka, hermitian)
-	B, C := e.mat(m, n), e.mat(m, n)
-	lda, ldb, ldc := max(1, ka)+c.PadA, max(1, n)+c.PadB, max(1, n)+c.PadC
-	ab := e.add(makeTri[T]("A", A, uplo, lda, false, hermitian, e.lay))
-	bb := e.add(makeGe[T]("B", B, ldb, e.lay))
-	Cin := newCmat(m, n)
-	for i := range C.d {
-		Cin.d[i] = e.outInit(C.d[i])
-	}
-	cb := e.add(makeGe[T]("C", Cin, ldc, e.lay))
-	for i := 0; i < m; i++ {
-		for j := 0; j < n; j++ {
-			var acc cacc
-			if left {
-				for l := 0; l < m; l++ {
-					acc.addProd(A.at(i, l), B.at(l, j))
-				}
-			} else {
-				for l := 0; l < n; l++ {
-					acc.addProd(B.at(i, l), A.at(l, j))
-				}
-			}
-			want := e.al * acc.val()
-			S := cmplx.Abs(e.al) * acc.abs
-			if e.be != 0 {
-				want += e.be * C.at(i, j)
-				S += cmplx.Abs(e.be) * cmplx.Abs(C.at(i, j))
-			}
-			cb.expectAt(i*ldc+j, want, bound[T](acc.k+2, S))
-		}
-	}
-	quick := m == 0 || n == 0 || (e.al == 0 && e.be == 1)
-	if f := e.call(func() {
-		if hermitian {
-			e.im.hemm(sdFlag(c.Side), ulFlag(c.Uplo), m, n, e.al, ab.s, lda, bb.s, ldb, e.be, cb.s, ldc)
-		} else {
-			e.im.symm(sdFlag(c.Side), ulFlag(c.Uplo), m, n, e.al, ab.s, lda, bb.s, ldb, e.be, cb.s, ldc)
-		}
-	}); f != nil {
-		return f
-	}
-	return e.verify(quick)
-}
-
-func (e *env[T]) syrk() *vk.Failure {
-	c := e.c
-	n, k := c.N, c.K
-	uplo, t := b0(c.Uplo), b0(c.TA)
-	two := c.Fam == "syr2k"
-	hermitian := c.Herm && e.cx
-	al, be := e.al, e.be
-	if hermitian {
-		be = complex(real(be), 0)
-		if !two {
-			al = complex(real(al), 0)
-		}
-	}
-	var A, B cmat
-	if t == 'N' {
-		A = e.mat(n, k)
-	} else {
-		A = e.mat(k, n)
-	}
-	lda := max(1, A.c) + c.PadA
-	ab := e.add(makeGe[T]("A", A, lda, e.lay))
-	var bb *buf[T]
-	ldb := 0
-	if two {
-		B = e.mat(A.r, A.c)
-		ldb = max(1, B.c) + c.PadB
-		bb = e.add(makeGe[T]("B", B, ldb, e.lay))
-	}
-	C := e.herm(n, hermitian)
-	ldc := max(1, n) + c.PadC
-	Cin := newCmat(n, n)
-	for i := range C.d {
-		Cin.d[i] = C.d[i]
-		if be == 0 {
-			Cin.d[i] = complex(math.NaN(), math.NaN())
-		}
-	}
-	cb := e.add(makeTri[T]("C", Cin, uplo, ldc, false, hermitian && be != 0, e.lay))
-	cb.hermDiag = map[int]bool{}
-	// X(i,l) = op-row i of A: A[i,l] for N, A[l,i] for T/C
-	row := func(M cmat, i, l int) complex128 {
-		if t == 'N' {
-			return M.at(i, l)
-		}
-		v := M.at(l, i)
-		if t == 'C' && e.cx {
-			return cmplx.Conj(v)
-		}
-		return v
-	}
-	cj := func(z complex128) complex128 {
-		if hermitian {
-			return cmplx.Conj(z)
-		}
-		return z
-	}
-	// C = alpha*X*Y^H' + ... where X = op rows. For t=='N': C = alpha A A^T (or A A^H);
-	// for t=='T'/'C': C = alpha A^T A (or A^H A): with row(i,l) = op(A)[i,l] the
-	// element is sum_l row(A,i,l)*cj'(row(A,j,l)) where for the transposed case the
-	// conjugation has already been applied by row when hermitian.
-	for i := 0; i < n; i++ {
-		for j := 0; j < n; j++ {
-			if !inTri(uplo, i, j) {
-				continue
-			}
-			var acc, acc2 cacc
-			for l := 0; l < k; l++ {
-				var ail, ajl complex128
-				if t == 'N' {
-					ail, ajl = A.at(i, l), cj(A.at(j, l))
-				} else {
-					ail, ajl = cj(A.at(l, i)), A.at(l, j)
-				}
-				if !two {
-					acc.addProd(ail, ajl)
-					continue
-				}
-				var bil, bjl complex128
-				if t == 'N' {
-					bil, bjl = B.at(i, l), cj(B.at(j, l))
-				} else {
-					bil, bjl = cj(B.at(l, i)), B.at(l, j)
-				}
-				acc.addProd(ail, bjl)  // A B^H  (or A^H B)
-				acc2.addProd(bil, ajl) // B A^H  (or B^H A)
-			}
-			_ = row
-			want := al * acc.val()
-			S := cmplx.Abs(al) * acc.abs
-			kk := acc.k
-			if two {
-				want += cj(al) * acc2.val()
-				S += cmplx.Abs(al) * acc2.abs
-				kk += acc2.k
-			}
-			cij := C.at(i, j)
-			if be != 0 {
-				want += be * cij
-				S += cmplx.Abs(be) * cmplx.Abs(cij)
-			}
-			idx := i*ldc + j
-			cb.expectAt(idx, want, bound[T](kk+2, S))
-			if hermitian && i == j {
-				cb.hermDiag[cb.off+idx] = true
-			}
-		}
-	}
-	quick := n == 0 || ((al == 0 || k == 0) && be == 1)
-	if f := e.call(func() {
-		ul, tr := ulFlag(c.Uplo), trFlag(c.TA)
-		switch {
-		case !two && hermitian:
-			e.im.herk(ul, tr, n, k, real(al), ab.s, lda, real(be), cb.s, ldc)
-		case !two:
-			e.im.syrk(ul, tr, n, k, al, ab.s, lda, be, cb.s, ldc)
-		case hermitian:
-			e.im.her2k(ul, tr, n, k, al, ab.s, lda, bb.s, ldb, real(be), cb.s, ldc)
-		default:
-			e.im.syr2k(ul, tr, n, k, al, ab.s, lda, bb.s, ldb, be, cb.s, ldc)
-		}
-	}); f != nil {
-		return f
-	}
-	return e.verify(quick)
-}
-
-func (e *env[T]) trxm() *vk.Failure {
-	c := e.c
-	m, n := c.M, c.N
-	uplo, ta, unit := b0(c.Uplo), b0(c.TA), c.Diag == "U"
-	left := c.Side != "R"
-	solve := c.Fam == "trsm"
-	ka := n
-	if left {
-		ka = m
-	}
-	A := e.tri(ka, uplo, unit, solve)
-	B := e.mat(m, n)
-	lda, ldb := max(1, ka)+c.PadA, max(1, n)+c.PadB
-	ab := e.add(makeTri[T]("A", A, uplo, lda, unit, false, e.lay))
-	bb := e.add(makeGe[T]("B", B, ldb, e.lay))
-	if !solve {
-		for i := 0; i < m; i++ {
-			for j := 0; j < n; j++ {
-				var acc cacc
-				if left {
-					for l := 0; l < m; l++ {
-						if a := A.opAt(ta, i, l); a != 0 {
-							acc.addProd(a, B.at(l, j))
-						}
-					}
-				} else {
-					for l := 0; l < n; l++ {
-						if a := A.opAt(ta, l, j); a != 0 {
-							acc.addProd(B.at(i, l), a)
-						}
-					}
-				}
-				bb.expectAt(i*ldb+j, e.al*acc.val(), bound[T](acc.k+2, cmplx.Abs(e.al)*acc.abs))
-			}
-		}
-	} else {
-		for i := 0; i < m; i++ {
-			for j := 0; j < n; j++ {
-				bb.expect[bb.off+i*ldb+j] = -2
-			}
-		}
-	}
-	if f := e.call(func() {
-		if solve {
-			e.im.trsm(sdFlag(c.Side), ulFlag(c.Uplo), trFlag(c.TA), dgFlag(c.Diag), m, n, e.al, ab.s, lda, bb.s, ldb)
-		} else {
-			e.im.trmm(sdFlag(c.Side), ulFlag(c.Uplo), trFlag(c.TA), dgFlag(c.Diag), m, n, e.al, ab.s, lda, bb.s, ldb)
-		}
-	}); f != nil {
-		return f
-	}
-	if solve && m > 0 && n > 0 {
-		X := newCmat(m, n)
-		for i := 0; i < m; i++ {
-			for j := 0; j < n; j++ {
-				v := bb.get(i*ldb + j)
-				if hasNaN(v) || cmplx.IsInf(v) {
-					return vk.Failf("solve-nonfinite", "%strsm: X[%d,%d]=%v", c.Prec, i, j, v)
-				}
-				X.set(i, j, v)
-			}
-		}
-		for i := 0; i < m; i++ {
-			for j := 0; j < n; j++ {
-				var acc cacc
-				if left {
-					for l := 0; l < m; l++ {
-						if a := A.opAt(ta, i, l); a != 0 {
-							acc.addProd(a, X.at(l, j))
-						}
-					}
-				} else {
-					for l := 0; l < n; l++ {
-						if a := A.opAt(ta, l, j); a != 0 {
-							acc.addProd(X.at(i, l), a)
-						}
-					}
-				}
-				rhs := e.al * B.at(i, j)
-				res := cmplx.Abs(rhs - acc.val())
-				tol := bound[T](ka+3, acc.abs+cmplx.Abs(rhs))
-				if res > tol {
-					return vk.Failf("solve-residual", "%strsm: element (%d,%d) residual %g exceeds %g", c.Prec, i, j, res, tol)
-				}
-			}
-		}
-	}
-	return e.verify(false)
-}
-
-// ---- Level 1 ---------------------------------------------------------------
-
-func (e *env[T]) level1() *vk.Failure {
-	c := e.c
-	n := c.N
-	u := unitRoundoff[T]()
-	x := e.vec(n)
-	xb := e.add(makeVec[T]("x", x, c.IncX, e.lay))
-	single := false
-	switch c.Fam {
-	case "nrm2", "asum", "iamax", "scal", "rscal":
-		single = true
-	}
-	var y []complex128
-	var yb *buf[T]
-	if !single {
-		y = e.vec(n)
-		yb = e.add(makeVec[T]("y", y, c.IncY, e.lay))
-	}
-	negSingle := single && c.IncX < 0
-	var fret float64
-	var cret complex128
-	var iret int
-	h := [4]float64{float64(c.AlRe), float64(c.AlIm), float64(c.BeRe), float64(c.BeIm)}
-	rc, rs := float64(c.AlRe), float64(c.BeRe) // rot: c, s
-	flag := c.K                                // rotm flag -2..1
-	if !e.cx {
-		for i := range h {
-			h[i] = real(roundTo[T](complex(h[i], 0)))
-		}
-		rc, rs = real(roundTo[T](complex(rc, 0))), real(roundTo[T](complex(rs, 0)))
-	}
-	sdsAlpha := float32(real(e.al))
-	// expectations
-	switch c.Fam {
-	case "swap":
-		for i := 0; i < n; i++ {
-			xb.expectAt(vecPos(i, n, c.IncX), y[i], 0)
-			yb.expectAt(vecPos(i, n, c.IncY), x[i], 0)
-		}
-	case "copy":
-		for i := 0; i < n; i++ {
-			yb.expectAt(vecPos(i, n, c.IncY), x[i], 0)
-		}
-	case "axpy":
-		for i := 0; i < n; i++ {
-			t := e.al * x[i]
-			yb.expectAt(vecPos(i, n, c.IncY), y[i]+t, bound[T](2, cmplx.Abs(y[i])+cmplx.Abs(t)))
-		}
-	case "scal":
-		if !negSingle {
-			for i := 0; i < n; i++ {
-				t := e.al * x[i]
-				xb.expectAt(vecPos(i, n, c.IncX), t, bound[T](1, cmplx.Abs(t)))
-			}
-		}
-	case "rscal":
-		if !negSingle {
-			for i := 0; i < n; i++ {
-				t := complex(real(e.al), 0) * x[i]
-				xb.expectAt(vecPos(i, n, c.IncX), t, bound[T](1, cmplx.Abs(t)))
-			}
-		}
-	case "rot":
-		for i := 0; i < n; i++ {
-			nx := complex(rc, 0)*x[i] + complex(rs, 0)*y[i]
-			ny := complex(rc, 0)*y[i] - complex(rs, 0)*x[i]
-			S := math.Abs(rc)*cmplx.Abs(x[i]) + math.Abs(rs)*cmplx.Abs(y[i])
-			S2 := math.Abs(rc)*cmplx.Abs(y[i]) + math.Abs(rs)*cmplx.Abs(x[i])
-			xb.expectAt(vecPos(i, n, c.IncX), nx, bound[T](2, S))
-			yb.expectAt(vecPos(i, n, c.IncY), ny, bound[T](2, S2))
-		}
-	case "rotm":
-		var h11, h12, h21, h22 float64
-		switch flag {
-		case -2:
-			h11, h12, h21, h22 = 1, 0, 0, 1
-		case -1:
-			h11, h21, h12, h22 = h[0], h[1], h[2], h[3]
-		case 0:
-			h11, h21, h12, h22 = 1, h[1], h[2], 1
-		case 1:
-			h11, h21, h12, h22 = h[0], -1, 1, h[3]
-		}
-		for i := 0; i < n; i++ {
-			if flag == -2 {
-				break // identity: nothing may change
-			}
-			nx := complex(h11, 0)*x[i] + complex(h12, 0)*y[i]
-			ny := complex(h21, 0)*x[i] + complex(h22, 0)*y[i]
-			xb.expectAt(vecPos(i, n, c.IncX), nx, bound[T](2, math.Abs(h11)*cmplx.Abs(x[i])+math.Abs(h12)*cmplx.Abs(y[i])))
-			yb.expectAt(vecPos(i, n, c.IncY), ny, bound[T](2, math.Abs(h21)*cmplx.Abs(x[i])+math.Abs(h22)*cmplx.Abs(y[i])))
-		}
-	}
-	if f := e.call(func() {
-		switch c.Fam {
-		case "dot":
-			if c.Herm {
-				cret = e.im.dotc(n, xb.s, c.IncX, yb.s, c.IncY)
-			} else {
-				cret = e.im.dotu(n, xb.s, c.IncX, yb.s, c.IncY)
-			}
-		case "dsdot":
-			fret = e.im.dsdot(n, xb.s, c.IncX, yb.s, c.IncY)
-		case "sdsdot":
-			fret = e.im.sdsdot(n, sdsAlpha, xb.s, c.IncX, yb.s, c.IncY)
-		case "nrm2":
-			fret = e.im.nrm2(n, xb.s, c.IncX)
-		case "asum":
-			fret = e.im.asum(n, xb.s, c.IncX)
-		case "iamax":
-			iret = e.im.iamax(n, xb.s, c.IncX)
-		case "swap":
-			e.im.swap(n, xb.s, c.IncX, yb.s, c.IncY)
-		case "copy":
-			e.im.copy(n, xb.s, c.IncX, yb.s, c.IncY)
-		case "axpy":
-			e.im.axpy(n, e.al, xb.s, c.IncX, yb.s, c.IncY)
-		case "scal":
-			e.im.scal(n, e.al, xb.s, c.IncX)
-		case "rscal":
-			e.im.rscal(n, real(e.al), xb.s, c.IncX)
-		case "rot":
-			e.im.rot(n, xb.s, c.IncX, yb.s, c.IncY, rc, rs)
-		case "rotm":
-			e.im.rotm(n, xb.s, c.IncX, yb.s, c.IncY, flag, h)
-		}
-	}); f != nil {
-		return f
-	}
-	// scalar results
-	switch c.Fam {
-	case "dot", "dsdot", "sdsdot":
-		var acc cacc
-		for i := 0; i < n; i++ {
-			xi := x[i]
-			if c.Herm {
-				xi = cmplx.Conj(xi)
-			}
-			acc.addProd(xi, y[i])
-		}
-		want := acc.val()
-		S := acc.abs
-		got := cret
-		if c.Fam != "dot" {
-			got = complex(fret, 0)
-		}
-		if c.Fam == "sdsdot" {
-			want += complex(float64(sdsAlpha), 0)
-			S += math.Abs(float64(sdsAlpha))
-		}
-		tol := bound[T](acc.k+2, S)
-		if hasNaN(got) || cmplx.Abs(got-want) > tol {
-			return vk.Failf("dot-mismatch", "%s%s n=%d incX=%d incY=%d got %v want %v (tol %g)", c.Prec, c.Fam, n, c.IncX, c.IncY, got, want, tol)
-		}
-	case "nrm2":
-		var acc vk.DD
-		for _, v := range x {
-			acc.AddProd(real(v), real(v))
-			acc.AddProd(imag(v), imag(v))
-		}
-		want := math.Sqrt(acc.Float())
-		if negSingle {
-			want = 0
-		}
-		tol := 2 * float64(2*n+4) * u * want
-		if math.IsNaN(fret) || math.Abs(fret-want) > tol {
-			return vk.Failf("nrm2-mismatch", "%snrm2 n=%d incX=%d got %v want %v (tol %g)", c.Prec, n, c.IncX, fret, want, tol)
-		}
-	case "asum":
-		var acc vk.DD
-		for _, v := range x {
-			acc.Add(math.Abs(real(v)))
-			acc.Add(math.Abs(imag(v)))
-		}
-		want := acc.Float()
-		if negSingle {
-			want = 0
-		}
-		tol := 2 * float64(2*n+4) * u * want
-		if math.IsNaN(fret) || math.Abs(fret-want) > tol {
-			return vk.Failf("asum-mismatch", "%sasum n=%d incX=%d got %v want %v (tol %g)", c.Prec, n, c.IncX, fret, want, tol)
-		}
-	case "iamax":
-		want := -1
-		best := -1.0
-		for i, v := range x {
-			if a := cabs1(v); a > best {
-				best, want = a, i
-			}
-		}
-		if negSingle {
-			want = -1
-		}
-		if iret != want {
-			return vk.Failf("iamax-mismatch", "%samax n=%d incX=%d got %d want %d (values %v)", c.Prec, n, c.IncX, iret, want, x)
-		}
-	}
-	return e.verify(false)
-}
-
-// ---- dispatch, generator -----------------------------------------------------
-
-func checkBLAS(c bcase) *vk.Failure {
+func checkC01(c blaskit.Case) *vk.Failure {
 	vk.Class(c.Prec + c.Fam)
-	nontrivialBLAS(c)
-	vk.Sample("blas-"+famLevel(c.Fam), c)
-	switch c.Prec {
-	case "S":
-		return runBLAS(implS(), c)
-	case "D":
-		return runBLAS(implD(), c)
-	case "C":
-		return runBLAS(implC(), c)
-	default:
-		return runBLAS(implZ(), c)
-	}
-}
-
-func famLevel(f string) string {
-	switch f {
-	case "gemm", "symm", "syrk", "syr2k", "trmm", "trsm":
-		return "l3"
-	case "dot", "dsdot", "sdsdot", "nrm2", "asum", "iamax", "swap", "copy", "axpy", "scal", "rscal", "rot", "rotm":
-		return "l1"
-	}
-	return "l2"
-}
-
-func nontrivialBLAS(c bcase) {
-	lvl := famLevel(c.Fam)
-	big := false
-	switch lvl {
-	case "l1":
-		big = c.N >= 2
-	case "l2":
-		big = c.N >= 2 && (c.M >= 2 || (c.Fam != "gemv" && c.Fam != "gbmv" && c.Fam != "ger"))
-	default:
-		big = c.N >= 2 && (c.K >= 2 || c.M >= 2)
-	}
-	if !big {
-		return
-	}
-	odd := c.N%4 != 0 || c.M%4 != 0 || c.K%4 != 0
-	if (c.IncX != 1 && c.IncX != 0) || (c.IncY != 1 && c.IncY != 0) || c.PadA+c.PadB+c.PadC > 0 || c.TA == "T" || c.TA == "C" || c.TB == "T" || c.TB == "C" || c.Uplo == "L" || c.Diag == "U" || c.Side == "R" || c.Herm || odd {
-		sc := func(re, im vk.F) string {
-			switch {
-			case re == 0 && im == 0:
-				return "0"
-			case re == 1 && im == 0:
-				return "1"
-			}
-			return "x"
-		}
-		vk.NonTrivial(c.Prec, c.Fam, c.TA, c.TB, c.Uplo, c.Diag, c.Side, c.Herm, c.M, c.N, c.K, c.KL, c.KU, c.IncX, c.IncY, c.PadA, c.PadB, c.PadC, sc(c.AlRe, c.AlIm), sc(c.BeRe, c.BeIm))
-	}
-}
-
-var (
-	l1Fams = []string{"dot", "nrm2", "asum", "iamax", "swap", "copy", "axpy", "scal", "rscal", "rot", "rotm", "dsdot", "sdsdot"}
-	l2Fams = []string{"gemv", "gbmv", "trmv", "tbmv", "tpmv", "trsv", "tbsv", "tpsv", "hemv", "hbmv", "hpmv", "ger", "her", "hpr", "her2", "hpr2"}
-	l3Fams = []string{"gemm", "symm", "syrk", "syr2k", "trmm", "trsm"}
-	dimBnd = []int{2, 4, 5, 8, 9, 16, 17, 33, 64, 65, 128, 129}
-)
-
-func famValid(prec, fam string) bool {
-	cx := prec == "C" || prec == "Z"
-	switch fam {
-	case "rot", "rotm":
-		return !cx
-	case "rscal":
-		return cx
-	case "dsdot", "sdsdot":
-		return prec == "S"
-	}
-	return true
-}
-
-func drawScalar(t *rapid.T, label string, cx bool) (vk.F, vk.F) {
-	re := vk.Scalar(t, label+"_re")
-	im := 0.0
-	if cx && rapid.IntRange(0, 2).Draw(t, label+"_cx") > 0 {
-		im = vk.Scalar(t, label+"_im")
-	}
-	return vk.F(re), vk.F(im)
-}
-
-func drawBLAS(t *rapid.T, fams []string, hi int) bcase {
-	var c bcase
-	c.Prec = rapid.SampledFrom([]string{"S", "D", "C", "Z"}).Draw(t, "prec")
-	cx := c.Prec == "C" || c.Prec == "Z"
-	for {
-		c.Fam = rapid.SampledFrom(fams).Draw(t, "fam")
-		if famValid(c.Prec, c.Fam) {
-			break
-		}
-	}
-	c.Seed = rapid.Uint64().Draw(t, "seed")
-	c.Pre = rapid.IntRange(0, 3).Draw(t, "pre")
-	c.Post = rapid.IntRange(0, 3).Draw(t, "post")
-	c.Tail = rapid.SampledFrom([]int{0, 0, 1, 3}).Draw(t, "tail")
-	c.Trim = rapid.Bool().Draw(t, "trim")
-	c.AlRe, c.AlIm = drawScalar(t, "alpha", cx)
-	c.BeRe, c.BeIm = drawScalar(t, "beta", cx)
-	tr := []string{"N", "T", "C"}
-	lvl := famLevel(c.Fam)
-	switch lvl {
-	case "l1":
-		c.N = vk.Dim(t, "n", 0, hi, dimBnd...)
-		c.IncX = vk.Inc(t, "incx")
-		c.IncY = vk.Inc(t, "incy")
-		switch c.Fam {
-		case "nrm2", "asum", "iamax", "scal", "rscal":
-			// the single-vector routines document that a negative increment
-			// makes them return 0 / -1 / do nothing; sample that rarely
-			if c.IncX < 0 && rapid.IntRange(0, 4).Draw(t, "keepneg") != 0 {
-				c.IncX = -c.IncX
-			}
-		case "dot":
-			c.Herm = cx && rapid.Bool().Draw(t, "conj")
-		case "rotm":
-			c.K = rapid.IntRange(-2, 1).Draw(t, "flag")
-		}
-	case "l2":
-		c.N = vk.Dim(t, "n", 0, hi, dimBnd...)
-		c.IncX = vk.Inc(t, "incx")
-		c.IncY = vk.Inc(t, "incy")
-		c.PadA = vk.Pad(t, "pada")
-		c.Uplo = rapid.SampledFrom([]string{"U", "L"}).Draw(t, "uplo")
-		c.TA = rapid.SampledFrom(tr).Draw(t, "ta")
-		c.Diag = rapid.SampledFrom([]string{"N", "U"}).Draw(t, "diag")
-		switch c.Fam {
-		case "gemv", "ger":
-			c.M = vk.Dim(t, "m", 0, hi, dimBnd...)
-			c.Herm = c.Fam == "ger" && cx && rapid.Bool().Draw(t, "conj")
-		case "gbmv":
-			c.M = vk.Dim(t, "m", 0, hi, dimBnd...)
-			c.KL = rapid.IntRange(0, min(c.M+1, 6)).Draw(t, "kl")
-			c.KU = rapid.IntRange(0, min(c.N+1, 6)).Draw(t, "ku")
-		case "tbmv", "tbsv", "hbmv":
-			c.K = rapid.IntRange(0, min(c.N+1, 6)).Draw(t, "k")
-		}
-	default:
-		c.M = vk.Dim(t, "m", 0, hi, dimBnd...)
-		c.N = vk.Dim(t, "n", 0, hi, dimBnd...)
-		c.K = vk.Dim(t, "k", 0, hi, dimBnd...)
-		c.PadA, c.PadB, c.PadC = vk.Pad(t, "pada"), vk.Pad(t, "padb"), vk.Pad(t, "padc")
-		c.Uplo = rapid.SampledFrom([]string{"U", "L"}).Draw(t, "uplo")
-		c.Side = rapid.SampledFrom([]string{"L", "R"}).Draw(t, "side")
-		c.Diag = rapid.SampledFrom([]string{"N", "U"}).Draw(t, "diag")
-		c.TA = rapid.SampledFrom(tr).Draw(t, "ta")
-		c.TB = rapid.SampledFrom(tr).Draw(t, "tb")
-		switch c.Fam {
-		case "symm":
-			c.Herm = cx && rapid.Bool().Draw(t, "herm")
-		case "syrk", "syr2k":
-			c.Herm = cx && rapid.Bool().Draw(t, "herm")
-			switch {
-			case cx && c.Herm:
-				// Hermitian rank-k: NoTrans or ConjTrans only
-				c.TA = rapid.SampledFrom([]string{"N", "C"}).Draw(t, "tah")
-			case cx:
-				// complex symmetric rank-k: NoTrans or Trans only
-				c.TA = rapid.SampledFrom([]string{"N", "T"}).Draw(t, "tas")
-			}
-		}
-	}
-	return c
+	blaskit.NonTrivial(c)
+	vk.Sample("blas-"+blaskit.FamLevel(c.Fam), c)
+	return blaskit.Check(c)
 }
 
 func TestBLASLevel1(t *testing.T) {
-	vk.Run(t, "blas-l1", vk.Opts{Quick: 80000, Thorough: 1500000}, func(t *rapid.T) bcase { return drawBLAS(t, l1Fams, 300) }, checkBLAS)
+	vk.Run(t, "blas-l1", vk.Opts{Quick: 80000, Thorough: 1500000}, func(t *rapid.T) blaskit.Case { return blaskit.Draw(t, blaskit.L1Fams, 300) }, checkC01)
 }
 
 func TestBLASLevel2(t *testing.T) {
-	vk.Run(t, "blas-l2", vk.Opts{Quick: 140000, Thorough: 2500000}, func(t *rapid.T) bcase { return drawBLAS(t, l2Fams, 150) }, checkBLAS)
+	vk.Run(t, "blas-l2", vk.Opts{Quick: 140000, Thorough: 2500000}, func(t *rapid.T) blaskit.Case { return blaskit.Draw(t, blaskit.L2Fams, 150) }, checkC01)
 }
 
 func TestBLASLevel3(t *testing.T) {
-	vk.Run(t, "blas-l3", vk.Opts{Quick: 40000, Thorough: 600000}, func(t *rapid.T) bcase { return drawBLAS(t, l3Fams, 48) }, checkBLAS)
+	vk.Run(t, "blas-l3", vk.Opts{Quick: 40000, Thorough: 600000}, func(t *rapid.T) blaskit.Case { return blaskit.Draw(t, blaskit.L3Fams, 48) }, checkC01)
 	// large shapes: several 64-blocks, the parallel gemm path
-	vk.Run(t, "blas-l3-large", vk.Opts{Quick: 1500, Thorough: 20000}, func(t *rapid.T) bcase {
-		c := drawBLAS(t, l3Fams, 40)
+	vk.Run(t, "blas-l3-large", vk.Opts{Quick: 1500, Thorough: 20000}, func(t *rapid.T) blaskit.Case {
+		c := blaskit.Draw(t, blaskit.L3Fams, 40)
 		big := func(label string) int {
 			return rapid.SampledFrom([]int{63, 64, 65, 100, 127, 128, 129, 130, 200, 257}).Draw(t, label)
 		}
@@ -1286,7 +46,5 @@ func TestBLASLevel3(t *testing.T) {
 			}
 		}
 		return c
-	}, checkBLAS)
+	}, checkC01)
 }
-
-var _ = fmt.Sprint
